@@ -1,5 +1,5 @@
-From E2V Require Import Qcow2.QcowIndex.
+From E2V Require Import Qcow2.QcowIndex Qcow2.QcowWriter.
 Require Extraction.
 Require Import ExtrOcamlBasic.
 Extraction Language OCaml.
-Extraction "qcow_model.ml" l1_of l2_of blk_of rc_table_index rc_entry.
+Extraction "qcow_model.ml" l1_of l2_of blk_of rc_table_index rc_entry write_all.
